@@ -8,7 +8,7 @@ import random
 import sim
 
 ARN = "arn:aws:states:local:0123456789:stateMachine:camp"
-INPUT = {"a": 1, "b": {"c": [1, 2, 3]}, "items": [1, 2, 3], "s": "x", "flag": True, "n": 5}
+INPUT = {"a": 1, "b": {"c": [1, 2, 3]}, "items": [1, 2, 3], "s": "x", "flag": True, "n": 5, "empty": []}
 
 
 class Gen:
@@ -75,7 +75,7 @@ class Gen:
             st = {"Type": kind}
             if kind == "Pass":
                 if r.random() < 0.5:
-                    st["Result"] = r.choice([{"p": 1}, [1, 2], "str", 7, {"nested": {"q": [True]}}])
+                    st["Result"] = r.choice([{"p": 1}, [1, 2], "str", 7, {"nested": {"q": [True]}}, False, 0, "", [], {}, None])
                 if r.random() < 0.3:
                     st["Parameters"] = self.template()
                 self.paths(st)
@@ -85,6 +85,8 @@ class Gen:
                     st["Parameters"] = self.template()
                 if r.random() < 0.25:
                     st["ResultSelector"] = r.choice([{"sel.$": "$"}, {"one": 1}, {"d.$": "$.done"}])
+                if r.random() < 0.25:
+                    st["TimeoutSeconds"] = r.choice([2, 30])
                 self.paths(st)
                 self.retry_catch(st, later + [end_fail])
             elif kind == "Choice":
@@ -121,6 +123,9 @@ class Gen:
                     st["ItemProcessor"] = proc
                     if r.random() < 0.4:
                         st["ItemSelector"] = {"item.$": "$$.Map.Item.Value", "s.$": "$.s"}
+                if r.random() < 0.2:
+                    st["InputPath"] = "$.b"           # ItemsPath is relative to the effective input
+                    st["ItemsPath"] = "$.c"
                 if r.random() < 0.5:
                     st["MaxConcurrency"] = r.choice([0, 1, 2, 3, 5])
                 if r.random() < 0.3:
@@ -150,9 +155,10 @@ def canon(v):
 class Worker:
     """Deterministic task behaviour: the outcome of the k-th invocation of (function, payload)."""
 
-    def __init__(self, seed, failures=0.25, errors=("A", "B", "States.TaskFailed")):
+    def __init__(self, seed, failures=0.25, errors=("A", "B", "States.TaskFailed"), hangs=0.0):
         self.seed = seed
         self.failures = failures
+        self.hangs = hangs            # probability that a worker never answers (the task times out)
         self.errors = errors
         self.calls = {}       # (fname, payload text) -> number of invocations so far
         self.oracle = {}      # (fname, payload text) -> list of outcomes
@@ -165,7 +171,9 @@ class Worker:
         h = int(hashlib.sha1(("%s|%s|%s|%d" % (self.seed, fname, ptext, k)).encode()).hexdigest(), 16)
         if (h % 1000) / 1000.0 < self.failures and k < 3:
             return ("err", self.errors[(h >> 20) % len(self.errors)])
-        return ("ok", [{"done": fname}, {"v": k}, [1, 2], "text", {"done": fname, "k": {"z": 1}}][(h >> 40) % 5])
+        if self.hangs and ((h >> 60) % 1000) / 1000.0 < self.hangs and k < 2:
+            return ("hang", None)
+        return ("ok", [{"done": fname}, {"v": k}, [1, 2], "text", {"done": fname, "k": {"z": 1}}, [], {}, "", 0, False][(h >> 40) % 10])
 
     def __call__(self, req):
         fname = req["queue"]
@@ -176,6 +184,8 @@ class Worker:
         self.oracle.setdefault((fname, ptext), []).append(o)
         if o[0] == "err":
             return {"errorType": o[1], "errorMessage": "task said no"}
+        if o[0] == "hang":
+            return None
         return (o[1],)
 
 
@@ -249,7 +259,7 @@ def cleanup(w):
 def oracle_term(worker, coq_str, coq_json):
     rows = []
     for (fname, ptext), outs in worker.oracle.items():
-        ots = ["(TSucc %s)" % coq_json(o[1]) if o[0] == "ok" else "(TErr %s)" % coq_str(o[1]) for o in outs]
+        ots = ["(TSucc %s)" % coq_json(o[1]) if o[0] == "ok" else "(TErr %s)" % coq_str("States.Timeout" if o[0] == "hang" else o[1]) for o in outs]
         rows.append("(%s, %s, [%s])" % (coq_str(fname), coq_str(ptext), "; ".join(ots)))
     return "[" + "; ".join(rows) + "]"
 
